@@ -161,8 +161,10 @@ def posterior_valid_and_bayes(model, stream, obs, emb, init, num_classes, seed, 
         # denominator; such a model is outside the property's hypothesis
         mb0 = np.ones(shape, bool) if mask is None else np.broadcast_to(mask, shape)
         top = np.take_along_axis(wfull, np.argmax(lp, axis=-2)[..., None, :], axis=-2)[..., 0, :]
-        best = np.where(mb0 & (wfull > 0), lp, -np.inf).max(-2)
-        with np.errstate(invalid='ignore'):
+        with np.errstate(divide='ignore', invalid='ignore'):
+            # the terms of the sum are w_k exp(lp_k - max lp): what counts is lp_k + log w_k of the classes with mass
+            # (time-dependent weights of a dying class pass through 1e-300 before they reach 0)
+            best = np.where(mb0 & (wfull > 0), lp + np.log(np.where(wfull > 0, wfull, 1.0)), -np.inf).max(-2)
             gap0 = lp.max(-2) - best
         if np.any((top == 0) & np.isfinite(best) & np.isfinite(lp.max(-2)) & (gap0 > (80 if single else 700))):
             return Skip('a class without mass (stored weight 0) attains the maximal log-pdf by more than the exp range')
